@@ -498,6 +498,13 @@ func C04TracedObject() {
 	sym.Reach("traced-done")
 }
 
+// zzIdleActor: an actor that does nothing (the router's service 0 in C04RouterConcurrent).
+type zzIdleActor struct{}
+
+func (zzIdleActor) Receive(m *net.Message, from Channel) error { return nil }
+func (zzIdleActor) Activate(activation Activation) error       { return nil }
+func (zzIdleActor) OnTerminate()                               {}
+
 // zzRouted: a service that records which messages the router handed to it.
 type zzRouted struct {
 	id  uint32
@@ -519,32 +526,33 @@ func (z *zzRouted) Receive(m *net.Message, from Channel) error {
 // C04RouterConcurrent: the router is entered by every connection's goroutine. Two connections address two
 // different services at the same moment (every shared-memory access of the router is a scheduling point),
 // then one more message is routed: each service only ever receives messages addressed to it — also the
-// messages that follow the concurrent pair. (Cross-listed under C06: a service-0 message handed to another
-// service, or the reverse, is how an unauthenticated request would get past the gate.)
+// messages that follow the concurrent pair. (Cross-listed under C06: a message handed to another service
+// than the one it names is how a service-0 request of an unauthenticated peer would get past the gate.)
 func C04RouterConcurrent() {
-	sym.RacyScope("bus.Router")
-	a, b := &zzRouted{id: 0}, &zzRouted{id: 1}
-	r := &Router{services: map[uint32]ServiceReceiver{}}
-	sym.Assert(r.Add(0, a) == nil && r.Add(1, b) == nil, "router/services-added")
+	// the router comes from its constructor (service 0 is whatever the constructor makes of the actor)
+	a, b := &zzRouted{id: 1}, &zzRouted{id: 2}
+	r := NewRouter(zzIdleActor{}, nil, nil)
+	sym.Assert(r.Add(1, a) == nil && r.Add(2, b) == nil, "router/services-added")
 	st := newZZStream()
 	ch := NewChannel(net.NewEndPoint(st), DefaultCap())
 	// an earlier message (whatever the router remembers between messages is warm)
-	warm := uint32(sym.Choose("earlier-message-to", 2))
+	warm := 1 + uint32(sym.Choose("earlier-message-to", 2))
 	m0 := zzFrame(net.Call, warm, 1, 1, 1, nil)
 	r.Receive(&m0, ch)
 	done := make(chan bool, 2)
-	go func() { m := zzFrame(net.Call, 0, 1, 1, 2, nil); r.Receive(&m, ch); done <- true }()
-	go func() { m := zzFrame(net.Call, 1, 1, 1, 3, nil); r.Receive(&m, ch); done <- true }()
+	sym.RacyScope("bus.Router") // from here on every shared-memory access of the router is a scheduling point
+	go func() { m := zzFrame(net.Call, 1, 1, 1, 2, nil); r.Receive(&m, ch); done <- true }()
+	go func() { m := zzFrame(net.Call, 2, 1, 1, 3, nil); r.Receive(&m, ch); done <- true }()
 	<-done
 	<-done
-	last := uint32(sym.Choose("later-message-to", 2))
+	last := 1 + uint32(sym.Choose("later-message-to", 2))
 	m3 := zzFrame(net.Call, last, 1, 1, 4, nil)
 	r.Receive(&m3, ch)
 	for _, s := range a.got {
-		sym.Assert(s == 0, "router/service-0-got-a-message-for-another-service")
+		sym.Assert(s == 1, "router/service-1-got-a-message-for-another-service")
 	}
 	for _, s := range b.got {
-		sym.Assert(s == 1, "router/service-1-got-a-message-for-another-service")
+		sym.Assert(s == 2, "router/service-2-got-a-message-for-another-service")
 	}
 	sym.Assert(len(a.got)+len(b.got) == 4, "router/message-lost-or-duplicated")
 	sym.Reach("router-concurrent-done")
